@@ -95,6 +95,8 @@ def run_job(job):
             job_config(res, rng, w, home, job)
         elif job["kind"] == "membercols":
             job_membercols(res, rng, w, home, job)
+        elif job["kind"] == "nonutf8":
+            job_nonutf8(res, rng, w, home, job)
     finally:
         runner.rm_scratch(sc)
     return res
@@ -469,6 +471,37 @@ def job_membercols(res, rng, w, home, job):
     res.count("member_rows_with_extra_columns", len(members))
 
 
+def job_nonutf8(res, rng, w, home, job):
+    """An archive whose own name, or a directory on the way to it, is not valid UTF-8: its members are listed like any others
+    (the rows print the path lossily, so they are counted and their sizes compared)."""
+    base = os.path.join(w, "nu").encode()
+    os.mkdir(base)
+    places = [b"plain.zip", b"caf\xe9/inner.zip", b"r\xe9sum\xe9.jar", b"d\xff/e\xfe/deep.war"]
+    want = []
+    for rel in places:
+        os.makedirs(os.path.dirname(os.path.join(base, rel)), exist_ok=True)
+        sizes = rng.sample([1, 5, 9, 33, 100, 1000, 4097], 3)
+        with zipfile.ZipFile(os.path.join(base, rel).decode("utf-8", "surrogateescape"), "w") as z:
+            for k, sz in enumerate(sizes):
+                z.writestr("m%d.txt" % k, b"q" * sz)
+        want += sizes
+    for opts in ("archives", "arc dfs", "archives maxdepth 3"):
+        q = "path, size from nu %s into list" % opts
+        r = q_run(res, w, home, q)
+        ctx = {"query": q, "archives": [repr(p) for p in places], "result": r.brief()}
+        if r.verdict != "ok" or r.rc != 0 or r.err or r.panicked:
+            if r.verdict in ("ok", "busy", "blocked"):
+                res.viol("`%s` on archives below names that are not valid UTF-8: %s, status %s, stderr %r" % (q, r.verdict, r.rc, r.err[:150]), ctx)
+            continue
+        cells = r.out.decode("utf-8", "replace").split("\0")[:-1]
+        got = sorted(int(cells[i + 1]) for i in range(0, len(cells) - 1, 2) if cells[i].startswith("["))
+        if got != sorted(want):
+            res.viol("`%s`: member sizes %s, the %d archives hold %s" % (q, got, len(places), sorted(want)), ctx)
+            continue
+        res.cover("config", "archive path not valid UTF-8 (%s)" % opts)
+        res.nt("nonutf8|%s" % opts)
+
+
 def job_config(res, rng, w, home, job):
     root = os.path.join(w, "g")
     os.mkdir(root)
@@ -510,6 +543,8 @@ def main(chk):
     for i in range(0, len(faults), 2 if not quick else 4):
         jobs.append({"id": "rf%d" % i, "kind": "readfault", "seed": job_seed(chk.seed, "C19", "rf%d" % i), "faults": faults[i:i + (2 if not quick else 4)]})
     jobs.append({"id": "cfg", "kind": "config", "seed": 1})
+    for i in range(4 if quick else 24):
+        jobs.append({"id": "nu%d" % i, "kind": "nonutf8", "seed": job_seed(chk.seed, "C19", "nu%d" % i)})
     for i in range(24 if quick else 120):
         jobs.append({"id": "mc%d" % i, "kind": "membercols", "seed": job_seed(chk.seed, "C19", "mc%d" % i)})
     if not quick:
